@@ -43,22 +43,37 @@ Proof. exact (count_nonneg fold121). Qed.
    a visible result of the model) and no loop exceeds its fuel (OutOfFuel likewise) ---- *)
 From Strcase Require Import Impl2 Impl3 Impl4 Impl5 Impl6 Impl7 Instances Totality.
 
-Theorem C06_total_two_strings : forall p native cutover maxBruteForce maxLen primeRK s t, wf s -> wf t ->
+Theorem C06_total_two_strings : forall p native cutover maxBruteForce maxLen primeRK nativeMax rtMaxLen, nativeMax <= rtMaxLen -> forall s t, wf s -> wf t ->
   total (Compare fold121 (lower_pkg p) p s t) /\ total (EqualFold fold121 (lower_pkg p) p s t) /\
   total (HasPrefix fold121 (lower_pkg p) p s t) /\ total (TrimPrefix fold121 (lower_pkg p) p s t) /\
   total (CutPrefix fold121 (lower_pkg p) p s t) /\
   total (HasSuffix fold121 (lower_pkg p) s t) /\ total (TrimSuffix fold121 (lower_pkg p) s t) /\
   total (CutSuffix fold121 (lower_pkg p) s t) /\
-  total (Impl6.Index native cutover fold121 (lower_pkg p) fold_map121 fold_map_excl121 upper_lower121 maxBruteForce maxLen primeRK p s t) /\
-  total (Impl6.Contains native cutover fold121 (lower_pkg p) fold_map121 fold_map_excl121 upper_lower121 maxBruteForce maxLen primeRK p s t) /\
+  total (Impl6.Index native cutover fold121 (lower_pkg p) fold_map121 fold_map_excl121 upper_lower121 maxBruteForce maxLen primeRK nativeMax rtMaxLen p s t) /\
+  total (Impl6.Contains native cutover fold121 (lower_pkg p) fold_map121 fold_map_excl121 upper_lower121 maxBruteForce maxLen primeRK nativeMax rtMaxLen p s t) /\
   total (Impl7.LastIndex fold121 (lower_pkg p) fold_map121 upper_lower121 primeRK p s t) /\
-  total (Count (Impl6.Index native cutover fold121 (lower_pkg p) fold_map121 fold_map_excl121 upper_lower121 maxBruteForce maxLen primeRK p) p s t) /\
-  total (Cut (Impl6.Index native cutover fold121 (lower_pkg p) fold_map121 fold_map_excl121 upper_lower121 maxBruteForce maxLen primeRK p) p s t) /\
+  total (Count (Impl6.Index native cutover fold121 (lower_pkg p) fold_map121 fold_map_excl121 upper_lower121 maxBruteForce maxLen primeRK nativeMax rtMaxLen p) p s t) /\
+  total (Cut (Impl6.Index native cutover fold121 (lower_pkg p) fold_map121 fold_map_excl121 upper_lower121 maxBruteForce maxLen primeRK nativeMax rtMaxLen p) p s t) /\
   total (Impl7.IndexAny native cutover fold_map121 upper_lower121 s t) /\
   total (Impl7.ContainsAny native cutover fold_map121 upper_lower121 s t) /\
   total (Impl7.LastIndexAny native cutover fold_map121 upper_lower121 s t).
 Proof. exact total_ss. Qed.
 Print Assumptions C06_total_two_strings.
+
+(* at the thresholds the source has now: the one call with a CPU-dependent contract (the runtime's native Index,
+   "requires len(b) <= MaxLen", AVX2 instructions beyond it) is never made outside it, whatever MaxLen the platform has *)
+From Strcase Require SrcConsts.
+From StrcaseGen Require Oracle.
+Theorem C06_index_total_at_the_source_constants : forall p native cutover rtMaxLen s t,
+  Oracle.rt_maxlen_min <= rtMaxLen -> wf s -> wf t ->
+  total (Impl6.Index native cutover fold121 (lower_pkg p) fold_map121 fold_map_excl121 upper_lower121
+           (SrcConsts.src_maxBruteForce p) (SrcConsts.src_maxLen p) (SrcConsts.src_primeRK p) (SrcConsts.src_nativeMax p) rtMaxLen p s t).
+Proof.
+  intros p native cutover rtMaxLen s t Hrt Hs Ht.
+  exact (proj1 (proj2 (proj2 (proj2 (proj2 (proj2 (proj2 (proj2 (proj2
+    (total_ss p native cutover _ _ _ _ rtMaxLen (SrcConsts.native_contract_src_le p rtMaxLen Hrt) s t Hs Ht)))))))))).
+Qed.
+Print Assumptions C06_index_total_at_the_source_constants.
 
 Theorem C06_total_string_rune_byte : forall native cutover s r c, wf s -> 0 <= c < 256 ->
   total (Impl5.IndexRune native cutover fold_map121 upper_lower121 s r) /\
